@@ -1,5 +1,5 @@
 /- L0 facts about the accessors, Display and Default of SimpleMovingAverage (split from Lemmas/SimpleMovingAverage.lean so that a change to one method only invalidates the facts about that method) -/
-import TaRs.Lemmas.SimpleMovingAverage
+import TaRs.Lemmas.Core.SimpleMovingAverage
 set_option linter.unusedSectionVars false
 namespace TaRs.Gen.SimpleMovingAverage
 open TaRs TaRs.Rs
